@@ -198,13 +198,15 @@ COMMON_ASSUMPTIONS = [
 def run_check(prop, tier='quick', seed=0, jobs=None, only=None):
     t_start = time.time()
     load_contracts(prop)
-    idxs = [i for i, t in enumerate(TASKS) if t.prop == prop and (tier == 'thorough' or t.tier == 'quick')]
+    # quick < thorough < extended (extended: tasks that did not complete within budget; in no MANIFEST command)
+    allowed = {'quick': ('quick',), 'thorough': ('quick', 'thorough'), 'extended': ('quick', 'thorough', 'extended')}[tier]
+    idxs = [i for i, t in enumerate(TASKS) if t.prop == prop and t.tier in allowed]
     if only:
         idxs = [i for i in idxs if only in TASKS[i].name]
     if not idxs:
         print(f'no tasks registered for {prop}', file=sys.stderr)
         return 3
-    budget_ms = int(os.environ.get('VERIF_QUERY_MS', 20000 if tier == 'quick' else 120000))
+    budget_ms = int(os.environ.get('VERIF_QUERY_MS', 20000 if tier == 'quick' else 60000))
     jobs = jobs or int(os.environ.get('VERIF_JOBS', '16'))
     results = []
     task_secs = {}
